@@ -38,6 +38,13 @@ written paths of every call and which calls equal the baseline; equal content id
 A failing call is minimised (calls are removed while the difference stays) and keyed by the shape of
 the minimal history. Probe: the validated configuration of every context is the same after the last call.
 
+(iv) Reserved-identifier stream: programs whose field / parameter / method / enum item / namespace names are one-word
+identifiers that the live keyword tables reserve in a *proper subset* of the target languages (every language the only
+reserving one in turn, words shared by several languages, two words with different language sets), generated from one
+parse in several orders of all targets (forward, reversed, rotated, shuffled, alternating between two parses of the
+same file) and target by target in fresh processes: for every target the written files *and the diagnostic* must be the
+fresh-process ones, whichever targets ran before (keys as for the histories, e.g. `history:generate-after-generate`).
+
 Specification on the implementation's observation: same (files, configuration, target) => same
 {path: digest} and same diagnostics, whatever the hash seed and the call history; the target list of a declaration
 (and the leading part of an inline function type's name) is the one the flags spell, in the order they spell it.
@@ -839,6 +846,152 @@ def model_calls(hist, nprogs, accepted):
 
 
 # ---------------------------------------------------------------------------------------------------
+# (K iv) identifiers that only some target languages reserve: outcome per target vs target order
+# ---------------------------------------------------------------------------------------------------
+
+def subset_reserved_words():
+    """{word: [languages that reserve it]} for every one-word lower-case identifier (same spelling under every default
+    identifier style that keeps one-word names) that the live keyword tables reserve in a *proper, non-empty subset* of
+    the languages and that the IDL itself does not reserve; and the list of languages"""
+    import kwtables
+    kw, idl = kwtables.live_tables(), kwtables.idl_keywords()
+    words = {}
+    for lang, ks in kw.items():
+        for k in ks:
+            if re.fullmatch(r"[a-z][a-z0-9]*", k) and k not in idl:
+                words.setdefault(k, set()).add(lang)
+    return {w: sorted(ls) for w, ls in sorted(words.items()) if len(ls) < len(kw)}, sorted(kw)
+
+
+KW_SITES = ["field", "param", "method", "field+param", "enum-item", "namespace", "two-words"]
+
+
+def keyword_program(r: random.Random, site: str, w: str, w2: str) -> str:
+    other = r.choice(sysgen.WORDS)
+    if site == "field":
+        return f"kw_rec = record {{ {other}: string; {w}: i32; }}\n"
+    if site == "param":
+        return f"kw_svc = interface +cpp {{ run_it({other}: i32, {w}: string) -> bool; }}\n"
+    if site == "method":
+        return f"kw_svc = interface +cpp {{ {other}(); {w}(x: i32); }}\n"
+    if site == "field+param":
+        return f"kw_rec = record {{ {w}: i32; }} deriving(eq)\nkw_svc = interface +cpp {{ take(v: kw_rec, {w}: i64); }}\n"
+    if site == "enum-item":
+        return f"kw_en = enum {{ {other}; {w}; }}\nkw_fl = flags {{ {w}; {other}; }}\n"
+    if site == "namespace":
+        return f"namespace {w} {{ kw_in = record {{ a: i32; }} }}\nkw_user = record {{ v: {w}.kw_in; }}\n"
+    # two words, reserved by different language sets, in two declarations
+    return f"kw_rec = record {{ {w}: i32; {other}: bool; }}\nkw_other = record {{ {w2}: string; }}\nkw_svc = interface +cpp {{ m({w2}: i32, {w}: i32); }}\n"
+
+
+def keyword_cases(ctx):
+    """[{files, root, opts, words, site, orders}] — one word (two for `two-words`) per program, every language is the only
+    reserving one in turn; seed-independent first cases (the corpus of the class), then random ones"""
+    words, langs = subset_reserved_words()
+    exclusive = {l: [w for w, ls in words.items() if ls == [l]] for l in langs}
+    shared = [w for w, ls in words.items() if len(ls) > 1]
+    cases = []
+    fixed = [(l, exclusive[l][0], "field") for l in langs if exclusive[l]] + [(l, exclusive[l][-1], "param") for l in langs[:2] if exclusive[l]]
+    n = max(ctx.n(12, 60), len(fixed))
+    for i in range(n):
+        r = random.Random(f"{ctx.seed}/c10/keywords/{i}")
+        if i < len(fixed):
+            lang, w, site = fixed[i]
+            r = random.Random(f"c10/keywords/corpus/{i}")
+        else:
+            lang = langs[i % len(langs)]
+            pool = exclusive[lang] if (exclusive[lang] and r.random() < 0.75) else (shared or exclusive[lang])
+            w, site = r.choice(pool), KW_SITES[(i // len(langs) + i) % len(KW_SITES)]
+        w2 = r.choice([x for x in words if x != w and words[x] != words[w]] or [w])
+        root = "proj/kw.pydjinni"
+        files = {root: keyword_program(r, site, w, w2)}
+        targets = list(sysgen.TARGETS)
+        opts = sysgen.make_options(r, targets, out_kind="rel", naming="default" if i % 4 else "random", report="processed.json", extras=False)
+        fwd = list(targets)
+        k = 1 + i % (len(targets) - 1)
+        shuffled = list(targets)
+        r.shuffle(shuffled)
+        orders = [("forward", fwd), ("reversed", fwd[::-1]), ("rotated", fwd[k:] + fwd[:k]), ("shuffled", shuffled)]
+        cases.append({"files": files, "root": root, "opts": opts, "words": {x: words[x] for x in ({w, w2} if site == "two-words" else {w})},
+                      "site": site, "orders": orders, "targets": targets})
+    return cases
+
+
+def keyword_history(order_name, ts):
+    """one parse, the targets in the given order; `two-parses`: the same file parsed twice on one context, the targets
+    alternate between the two results (what an earlier generation *in the process* leaves behind)"""
+    if order_name == "two-parses":
+        return [("parse", 0, 0), ("parse", 0, 0)] + [("generate", j % 2, t) for j, t in enumerate(ts)]
+    return [("parse", 0, 0)] + [("generate", 0, t) for t in ts]
+
+
+def keyword_job(case, hist):
+    calls = [{"op": "parse", "ctx": 0, "idl": case["root"]} if c[0] == "parse" else {"op": "generate", "gc": c[1], "target": c[2]} for c in hist]
+    return {"files": case["files"], "cwd": ".", "contexts": [case["opts"]], "calls": calls, "normalized": True}
+
+
+def gen_view(rec):
+    return [rec.get("files", {}), diag_view(rec)]
+
+
+def evaluate_keyword_cases(ctx, cases):
+    """specification: what `generate(t)` does (files written, diagnostic) for a program is what a fresh process that
+    generates only `t` does — whichever targets were generated before from the same parse / in the same process"""
+    jobs, index = [], []
+    for ci, case in enumerate(cases):
+        for t in case["targets"]:
+            index.append((ci, "alone", t))
+            jobs.append(keyword_job(case, keyword_history("alone", [t])))
+        for name, ts in case["orders"] + [("two-parses", case["orders"][ci % len(case["orders"])][1])]:
+            index.append((ci, name, ts))
+            jobs.append(keyword_job(case, keyword_history(name, ts)))
+    res = sysgen.run_jobs(ctx, jobs, hashseed="0", tag="c10k")
+    alone = {}
+    for (ci, name, t), o in zip(index, res):
+        if "fatal" in o:
+            raise RuntimeError(f"worker failed: {o['fatal']}")
+        if name == "alone":
+            alone[(ci, t)] = o["calls"][-1]
+    reported = set()
+    for (ci, name, ts), o in zip(index, res):
+        case = cases[ci]
+        if name == "alone":
+            continue
+        if not o["calls"][0]["ok"]:
+            raise RuntimeError(f"keyword program rejected by the front end: {case['files']} {o['calls'][0]['exc']}")
+        hist = keyword_history(name, ts)
+        refused = sorted(t for t in case["targets"] if not alone[(ci, t)]["ok"])
+        ctx.count(key=json.dumps(["keywords", case["site"], sorted(map(tuple, case["words"].values())), name, refused]),
+                  nontrivial=0 < len(refused) < len(case["targets"]),
+                  sample={"idl": case["files"][case["root"]], "reserved_in": case["words"], "order": ts, "targets_refusing_alone": refused})
+        ctx.stat("keyword_orders")
+        ctx.stat("keyword_site_" + case["site"])
+        for t in refused:
+            ctx.stat("keyword_refused_by_" + t)
+        for idx, (c, rec) in enumerate(zip(hist, o["calls"])):
+            if c[0] != "generate":
+                continue
+            b = alone[(ci, c[2])]
+            ctx.stat("keyword_generate_calls")
+            if not b["ok"] and any(alone[(ci, x[2])]["ok"] for x in hist[:idx] if x[0] == "generate"):
+                ctx.stat("keyword_refusing_target_after_an_accepting_one")
+            if gen_view(rec) == gen_view(b):
+                continue
+            key = classify([tuple(x) for x in hist[: idx + 1]])
+            if (ci, key) in reported:
+                continue
+            reported.add((ci, key))
+            differing = sorted(p for p in set(b.get("files", {})) | set(rec.get("files", {})) if b.get("files", {}).get(p) != rec.get("files", {}).get(p))
+            before = [x[2] for x in hist[:idx] if x[0] == "generate"]
+            ctx.report(key, f"generate('{c[2]}') after generating {before} in the same process differs from a fresh process that generates only '{c[2]}' "
+                            f"(program with the identifier(s) {case['words']} — word: languages that reserve it — at site '{case['site']}'): "
+                            f"here ok={rec['ok']} {json.dumps((rec['exc'] or {}).get('msg'))[:160]} writing {len(rec.get('files', {}))} file(s), "
+                            f"alone ok={b['ok']} {json.dumps((b['exc'] or {}).get('msg'))[:160]} writing {len(b.get('files', {}))} file(s); differing paths {differing[:3]}",
+                       {"kind": "keywords", "case": case, "order": name, "targets": ts, "call": idx, "differing": differing[:10]})
+    ctx.stats["keyword_programs"] = len(cases)
+
+
+# ---------------------------------------------------------------------------------------------------
 
 def run(ctx):
     ctx.coverage["rule"] = ("seeds: one case = program x configuration run under every hash seed; histories: one case = call history on one API object "
@@ -1163,6 +1316,8 @@ def run(ctx):
         else:
             f["what"] += f" after the history {h[:idx]}"
         ctx.report(f["key"], f["what"], f["replay"])
+    # ---- (K iv) identifiers reserved by some target languages only: every target's outcome vs the target order ----------
+    evaluate_keyword_cases(ctx, keyword_cases(ctx))
     multi = {cid: ds for cid, ds in by_cid.items() if len(ds) > 1}
     if multi:
         cid = sorted(multi)[0]
@@ -1219,5 +1374,12 @@ def replay(ctx, body):
         got, want = o["calls"][idx].get("files", {}), b["calls"][-1].get("files", {})
         print(json.dumps({"call": c, "equal": got == want, "differing": sorted(p for p in set(got) | set(want) if got.get(p) != want.get(p))[:10]}, indent=1))
         return got == want
+    if body.get("kind") == "keywords":
+        before = len(ctx.violations) + sum(ctx.known_hits.values())
+        case = body["case"]
+        case["orders"] = [(body["order"], body["targets"])] if body["order"] != "two-parses" else [("forward", body["targets"])]
+        evaluate_keyword_cases(ctx, [case])
+        print(json.dumps({"violations": ctx.violations}, indent=1)[:3000])
+        return len(ctx.violations) + sum(ctx.known_hits.values()) == before
     print("nothing to replay for this record")
     return True
